@@ -37,6 +37,7 @@ func main() {
 	}
 	h.Cfg.UFTables = os.Getenv("UF") != ""
 	h.Cfg.MonotoneRounding = os.Getenv("MONO") != ""
+	h.Cfg.IntInputsAsReal = os.Getenv("INTREAL") != ""
 	h.Cfg.MergeFuncs = map[string]bool{}
 	for _, f := range strings.Split(os.Getenv("MERGE"), ",") {
 		if f != "" {
